@@ -283,27 +283,36 @@ def c01(case: dict, cv: CallView, out: list) -> dict:
     info = {"failures": 0, "cap_reason": False}
     if len(cv.atts) > cfg.get("max_attempts", 3):
         out.append(("C01:max_attempts", f"{len(cv.atts)} invocations with max_attempts={cfg.get('max_attempts')}"))
-    retried: dict = {}
+    # the caps in force when each retry is granted (the caller may rebind them while the call is in flight)
+    per_class = dict(cfg.get("per_class") or {})
+    mu = cfg.get("max_unknown")
+    seen: dict = {}
     retry_events: dict = {}
     for i, a in enumerate(cv.atts):
         last = i == len(cv.atts) - 1
-        if not failed(case, a):
-            continue
-        info["failures"] += 1
-        k = a.klass
-        if not last:
-            retried[k] = retried.get(k, 0) + 1
-            if k in NONRETRY:
-                out.append(("C01:nonretryable-retried", f"attempt {a.n} failed with {k} and attempt {a.n + 1} was still made"))
-        for _, e in a.metrics("retry"):
-            kk = e[4].get("class")
-            retry_events[kk] = retry_events.get(kk, 0) + 1
-    for k, L in (cfg.get("per_class") or {}).items():
-        if retried.get(k, 0) > L or retry_events.get(k, 0) > L:
-            out.append(("C01:per_class_cap", f"{max(retried.get(k, 0), retry_events.get(k, 0))} retries granted after {k} failures, per_class_max_attempts={L}"))
-    mu = cfg.get("max_unknown")
-    if mu is not None and (retried.get("UNKNOWN", 0) > mu or retry_events.get("UNKNOWN", 0) > mu):
-        out.append(("C01:unknown_cap", f"{max(retried.get('UNKNOWN', 0), retry_events.get('UNKNOWN', 0))} retries after UNKNOWN failures, max_unknown_attempts={mu}"))
+        if failed(case, a):
+            info["failures"] += 1
+            k = a.klass
+            seen[k] = seen.get(k, 0) + 1
+            granted = not last
+            for _, e in a.metrics("retry"):
+                kk = e[4].get("class")
+                retry_events[kk] = retry_events.get(kk, 0) + 1
+                granted = True
+            if granted:
+                if not last and k in NONRETRY:
+                    out.append(("C01:nonretryable-retried", f"attempt {a.n} failed with {k} and attempt {a.n + 1} was still made"))
+                L = per_class.get(k)
+                if L is not None and seen[k] > L:
+                    out.append(("C01:per_class_cap", f"retry #{seen[k]} granted after a {k} failure (attempt {a.n}), per_class_max_attempts[{k}]={L} in force"))
+                if k == "UNKNOWN" and mu is not None and seen[k] > mu:
+                    out.append(("C01:unknown_cap", f"retry #{seen[k]} granted after an UNKNOWN failure (attempt {a.n}), max_unknown_attempts={mu} in force"))
+        for e in a.ev:
+            if e[0] == "reconfigure":
+                if "per_class" in e[1]:
+                    per_class = dict(e[1]["per_class"])
+                if "max_unknown" in e[1]:
+                    mu = e[1]["max_unknown"]
     r = reported_reason(cv)
     info["cap_reason"] = r in ("MAX_ATTEMPTS_GLOBAL", "MAX_ATTEMPTS_PER_CLASS", "MAX_UNKNOWN_ATTEMPTS", "NON_RETRYABLE_CLASS")
     info["reason"] = r
@@ -338,7 +347,11 @@ def c02(case: dict, cv: CallView, out: list, tol_s: float = 0.0) -> dict:
         t_fail = a.t_end_s
         late = failed(case, a) and t_fail is not None and t_fail >= D + tol_s
         for i, e in enumerate(a.ev):
-            if e[0] == "sleep":
+            if e[0] == "reconfigure" and "deadline" in e[1]:
+                D = g(e[1]["deadline"])  # the caller shortened / extended the deadline while the call was backing off
+                info["near"] = True
+                total_sleep = float("-inf")  # the total-sleep clause is stated for a fixed deadline
+            elif e[0] == "sleep":
                 s = e[2]
                 t_rel = e[4] - b_s
                 remaining = D - t_rel
@@ -971,7 +984,8 @@ def c14(case: dict, cv: CallView, out: list, budget_spec: dict | None = None) ->
                 out.append(("C14:terminal-without-reason", f"terminal event {term[1]} has no stop_reason tag"))
             elif TERMINAL_BY_REASON.get(tag) != term[1]:
                 out.append(("C14:event-name", f"terminal event '{term[1]}' with stop_reason {tag}"))
-            if delivered is None and tag is not None and cv.atts and failed(case, cv.atts[-1]):
+            midflight = any(e[0] == "reconfigure" for e in cv.events)
+            if delivered is None and tag is not None and cv.atts and failed(case, cv.atts[-1]) and not midflight:
                 ok = acceptable_reasons(case, cv, budget_spec)
                 if ok is not None and tag not in ok and tag != "ABORTED":
                     out.append(("C14:stop-reason-mismatch", f"terminal event stop_reason={tag} but the conditions that hold are {sorted(ok)}"))
